@@ -39,7 +39,7 @@ func exec(c vh.Case, o *vh.Out) {
 		switch f[0] {
 		case "dag":
 			w = pinh.NewWorld(line)
-			cur = w.Query()
+			cur = w.QueryLight()
 			o.Emit("ok")
 		case "crashall", "crashat":
 			mf := f[1:]
@@ -51,7 +51,7 @@ func exec(c vh.Case, o *vh.Out) {
 			before := cur
 			snap0 := w.Store.Snapshot()
 			tok, ws := w.Mutate(mf)
-			after := w.Query()
+			after := w.QueryLight()
 			o.Kind(mf[0])
 			o.Kind("res-" + tok)
 			o.Kind("writes-" + strconv.Itoa(len(ws)))
@@ -92,7 +92,7 @@ func exec(c vh.Case, o *vh.Out) {
 				check(n, rec)
 				parts = append(parts, rec.Line())
 				w.CrashTo(snap0, ws[:n])
-				cur = w.Query()
+				cur = w.QueryLight()
 				o.Kind("continued-after-crash")
 			}
 			o.Emit("%s", strings.Join(parts, " :: "))
